@@ -44,7 +44,7 @@ Definition Known_C04_child (capture last : bool) (st : stage) : bool := known_ca
 
 (* every stage of every pipeline, every variant of the code *)
 Theorem C04_sinks_variants : forall v fail_at openable pl sh i0 o0 e0,
-  std_ok (tab sh) i0 o0 e0 -> is_single_builtin pl = false ->
+  std_ok (tab sh) i0 o0 e0 -> runs_in_shell pl = false ->
   let r := run_pipeline v fail_at openable pl sh in
   res_error r = false ->
   kids_ok (fun idx st k =>
@@ -69,7 +69,7 @@ Qed.
 (* the code as it is (/repo 65131df: capture pipes before the redirections): NO stage class is left -- `$(prog 2>&1)`,
    `$(prog 1>&2)`, `$(prog > f 2>&1)` follow the POSIX fold over the capture pipes like any other descriptor *)
 Theorem C04_sinks : forall fail_at openable pl sh i0 o0 e0,
-  std_ok (tab sh) i0 o0 e0 -> is_single_builtin pl = false ->
+  std_ok (tab sh) i0 o0 e0 -> runs_in_shell pl = false ->
   let r := run_pipeline v0 fail_at openable pl sh in
   res_error r = false ->
   kids_ok (fun idx st k => sinks_ok i0 o0 e0 (length (p_stages pl)) (p_capture pl) idx st k)
@@ -98,7 +98,7 @@ Proof. vm_compute. repeat split; reflexivity. Qed.
    CAPTURED pipeline is lost (finding captured-builtin-last-stage); with notes/C04-fix-6.patch (bcfix) it always follows
    the fold. *)
 Theorem C04_builtin_child_variants : forall bcfix fail_at openable pl sh i0 o0 e0,
-  std_ok (tab sh) i0 o0 e0 -> is_single_builtin pl = false ->
+  std_ok (tab sh) i0 o0 e0 -> runs_in_shell pl = false ->
   let r := run_pipeline v0 fail_at openable pl sh in
   res_error r = false ->
   kids_ok (fun idx st k =>
@@ -125,7 +125,7 @@ Qed.
 (* the code as it is (/repo a7a8308: the builtin in a child prints with capture off): the text of EVERY builtin stage goes
    where the POSIX fold says, the last stage of a captured pipeline included *)
 Theorem C04_builtin_child : forall fail_at openable pl sh i0 o0 e0,
-  std_ok (tab sh) i0 o0 e0 -> is_single_builtin pl = false ->
+  std_ok (tab sh) i0 o0 e0 -> runs_in_shell pl = false ->
   let r := run_pipeline v0 fail_at openable pl sh in
   res_error r = false ->
   kids_ok (fun idx st k =>
@@ -149,7 +149,7 @@ Proof. vm_compute. split; reflexivity. Qed.
 (* a source or target that cannot be opened: the stage is not exec'd and exits with status 1;
    otherwise it is exec'd (external), and exactly the files a POSIX shell opens are opened *)
 Theorem C04_unopenable : forall v fail_at openable pl sh i0 o0 e0,
-  std_ok (tab sh) i0 o0 e0 -> is_single_builtin pl = false ->
+  std_ok (tab sh) i0 o0 e0 -> runs_in_shell pl = false ->
   let r := run_pipeline v fail_at openable pl sh in
   res_error r = false ->
   kids_ok (fun idx st k =>
@@ -169,7 +169,7 @@ Definition child_sinks (capture : bool) (rs : list redir) : option obj * option 
   | _ => (None, None)
   end.
 Definition builtin_sink (rs : list redir) (is_out : bool) : option obj :=
-  match res_sinks (run_pipeline v0 nf yes (mkplan [mks FNone rs KBuiltin [is_out]] false) sh0) with
+  match res_sinks (run_pipeline v0 nf yes (mkplan [mks FNone rs KBuiltin [(is_out, false)]] false) sh0) with
   | [o] => o
   | _ => None
   end.
@@ -191,7 +191,7 @@ Theorem C04_builtin_sinks : forall fail_at openable pl sh st o1 c1 o2 c2,
   let r := run_pipeline v0 fail_at openable pl sh in
   let sk := posix_sinks (s_redirs st) (o1, o2) in
   (res_error r = false ->
-   res_sinks r = map (fun is_out : bool => Some (if is_out then fst sk else snd sk)) (s_prints st)) /\
+   res_sinks r = map (fun b : bool * bool => Some (if fst b then fst sk else snd sk)) (s_prints st)) /\
   (res_error r = true <-> allopen openable (s_redirs st) = false).
 Proof. intros. eapply (builtin_sinks_fold v0); eauto. Qed.
 (* the probe step of the lone-builtin branch (core.rs, d4ac685): before the builtin runs, every file target of the list is
@@ -205,35 +205,31 @@ Proof. exact preopen_opens. Qed.
 (* the whole lone-builtin run on the two shapes: `b > f5 > (unopenable 9) > f6` and a silent `b > f5 >> f6` *)
 Example C04_builtin_probe_instances :
   ev_opens (tr (res_shell (run_pipeline v0 nf (fun p => negb (Nat.eqb p 9))
-     (mkplan [mks FNone [mkr F1 false (TFile 5); mkr F1 false (TFile 9); mkr F1 false (TFile 6)] KBuiltin [true]] false) sh0)))
+     (mkplan [mks FNone [mkr F1 false (TFile 5); mkr F1 false (TFile 9); mkr F1 false (TFile 6)] KBuiltin [(true, false)]] false) sh0)))
   = [(5, MTrunc); (9, MTrunc)] /\
   ev_opens (tr (res_shell (run_pipeline v0 nf yes
      (mkplan [mks FNone [mkr F1 false (TFile 5); mkr F1 true (TFile 6)] KBuiltin []] false) sh0)))
   = [(5, MTrunc); (6, MAppend)].
 Proof. vm_compute. split; reflexivity. Qed.
 
-(* ---- a CAPTURED builtin that is alone on its line, `$(builtin redirs)`: the one application-side class that is left ---- *)
-(* the property: its text goes where the POSIX fold of its redirections says, starting from the capture pipes *)
-Definition C04_captured_builtin_full : Prop :=
-  forall rs, forallb (fun r => negb (out_of_scope r)) rs = true ->
-  captured_builtin_text rs = posix_sinks rs (OPipeW PCapOut, OPipeW PCapErr).
-(* class captured-builtin-target-ignored: the captured lone builtin carries at least one redirection *)
-Definition Known_C04 (rs : list redir) : bool := match rs with [] => false | _ => true end.
-(* x=$(alias > f): the text is in x, f is only truncated;  $(alias zz 2>&1): the diagnostic is not in the substitution *)
-Theorem C04_captured_builtin_refuted : ~ C04_captured_builtin_full.
-Proof. intro H. specialize (H [mkr F1 false (TFile 5)] eq_refl). vm_compute in H. discriminate. Qed.
-Theorem C04_captured_builtin_partial : forall rs, Known_C04 rs = false ->
-  captured_builtin_text rs = posix_sinks rs (OPipeW PCapOut, OPipeW PCapErr).
-Proof. intros [|r rest] H; [reflexivity | discriminate]. Qed.
-(* after notes/C04-fix-7.patch such a command is a one-stage pipeline whose stage is a builtin in a child: C04_builtin_child
-   (every n, n = 1 included, capture on) then gives exactly the POSIX fold -- the class disappears without a new theorem *)
+(* a CAPTURED builtin alone on its line that carries redirections (`x=$(alias > f)`) is, since /repo 9dba15b, a one-stage pipeline
+   whose stage is a builtin in a forked child (Model runs_in_shell): C04_builtin_child / C04_sinks / C08_children, proved for every
+   n, cover it with n = 1 -- its text follows the POSIX fold over the capture pipes; no class is left *)
+Example C04_captured_lone_builtin :
+  let text rs := map (builtin_child_text true true true)
+                   (res_kids (run_pipeline v0 nf yes (mkplan [mks FNone rs KBuiltin []] true) sh0)) in
+  text [mkr F1 false (TFile 5)] = [Some (Some (OFile 5 MTrunc), Some (OPipeW PCapErr))] /\
+  text [mkr F2 false TAmp1; mkr F1 false (TFile 5)] = [Some (Some (OFile 5 MTrunc), Some (OPipeW PCapOut))] /\
+  text [mkr F1 false TAmp2; mkr F2 false (TFile 6)] = [Some (Some (OPipeW PCapErr), Some (OFile 6 MTrunc))].
+Proof. vm_compute. repeat split; reflexivity. Qed.
+
 (* regression: the recursive look-ahead version before c05c052 *)
 Definition v_before_c05c052 := mkv true true true true true false false.
 Example C04_builtin_regression :
-  res_sinks (run_pipeline v_before_c05c052 nf yes (mkplan [mks FNone [mkr F2 false TAmp1] KBuiltin [false]] false) sh0) = [Some (OInh 2)] /\
-  res_sinks (run_pipeline v0 nf yes (mkplan [mks FNone [mkr F2 false TAmp1] KBuiltin [false]] false) sh0) = [Some (OInh 1)] /\
-  res_sinks (run_pipeline v_before_c05c052 nf yes (mkplan [mks FNone [mkr F2 false (TFile 5); mkr F1 false TAmp2] KBuiltin [true]] false) sh0) = [Some (OInh 2)] /\
-  res_sinks (run_pipeline v0 nf yes (mkplan [mks FNone [mkr F2 false (TFile 5); mkr F1 false TAmp2] KBuiltin [true]] false) sh0) = [Some (OFile 5 MTrunc)].
+  res_sinks (run_pipeline v_before_c05c052 nf yes (mkplan [mks FNone [mkr F2 false TAmp1] KBuiltin [(false, false)]] false) sh0) = [Some (OInh 2)] /\
+  res_sinks (run_pipeline v0 nf yes (mkplan [mks FNone [mkr F2 false TAmp1] KBuiltin [(false, false)]] false) sh0) = [Some (OInh 1)] /\
+  res_sinks (run_pipeline v_before_c05c052 nf yes (mkplan [mks FNone [mkr F2 false (TFile 5); mkr F1 false TAmp2] KBuiltin [(true, false)]] false) sh0) = [Some (OInh 2)] /\
+  res_sinks (run_pipeline v0 nf yes (mkplan [mks FNone [mkr F2 false (TFile 5); mkr F1 false TAmp2] KBuiltin [(true, false)]] false) sh0) = [Some (OFile 5 MTrunc)].
 Proof. vm_compute. repeat split; reflexivity. Qed.
 
 (* regression: before 65131df a captured last stage ignored 2>&1 *)
@@ -281,11 +277,11 @@ Proof.
     assert (G : forall is_out, builtin_sink rs is_out
                 = Some (if is_out then fst (posix_sinks rs (OInh 1, OInh 2)) else snd (posix_sinks rs (OInh 1, OInh 2)))).
     { intro is_out. unfold builtin_sink.
-      destruct (C04_builtin_sinks nf yes (mkplan [mks FNone rs KBuiltin [is_out]] false) sh0
-                  (mks FNone rs KBuiltin [is_out]) (OInh 1) false (OInh 2) false eq_refl eq_refl eq_refl eq_refl eq_refl) as (S1 & S2).
+      destruct (C04_builtin_sinks nf yes (mkplan [mks FNone rs KBuiltin [(is_out, false)]] false) sh0
+                  (mks FNone rs KBuiltin [(is_out, false)]) (OInh 1) false (OInh 2) false eq_refl eq_refl eq_refl eq_refl eq_refl) as (S1 & S2).
       cbn [s_redirs s_prints map] in S1, S2.
-      assert (NE : res_error (run_pipeline v0 nf yes (mkplan [mks FNone rs KBuiltin [is_out]] false) sh0) = false).
-      { destruct (res_error (run_pipeline v0 nf yes (mkplan [mks FNone rs KBuiltin [is_out]] false) sh0)) eqn:E; [|reflexivity].
+      assert (NE : res_error (run_pipeline v0 nf yes (mkplan [mks FNone rs KBuiltin [(is_out, false)]] false) sh0) = false).
+      { destruct (res_error (run_pipeline v0 nf yes (mkplan [mks FNone rs KBuiltin [(is_out, false)]] false) sh0)) eqn:E; [|reflexivity].
         pose proof (proj1 S2 eq_refl) as E2. rewrite allopen_yes in E2. discriminate. }
       rewrite (S1 NE). reflexivity. }
     split; [apply (G true) | apply (G false)].
@@ -294,7 +290,7 @@ Check C04_holds : C04_full.
 
 (* only the redirected command is affected: the shell's own table is what it was *)
 Theorem C04_shell_unaffected : forall v openable pl sh,
-  is_single_builtin pl = false ->
+  runs_in_shell pl = false ->
   teq_tab (res_shell (run_pipeline v nf openable pl sh)) (tab sh).
 Proof.
   intros v openable pl sh NB.
@@ -316,7 +312,5 @@ Print Assumptions C04_unopenable.
 Print Assumptions C04_builtin_child.
 Print Assumptions C04_builtin_sinks.
 Print Assumptions C04_builtin_probe.
-Print Assumptions C04_captured_builtin_refuted.
-Print Assumptions C04_captured_builtin_partial.
 Print Assumptions C04_shell_unaffected.
 Print Assumptions C04_holds.
